@@ -372,6 +372,11 @@ func validateConfig(c *Config) error {
 			if c.ProfileAddress[len("unix://"):] == "" {
 				return errors.New("'profile_address' Unix socket specification is missing a socket path")
 			}
+		} else {
+			_, _, err := net.SplitHostPort(c.ProfileAddress)
+			if err != nil {
+				return errors.New("'profile_address' must either be formatted as [host]:port or unix://socket.path")
+			}
 		}
 	}
 
